@@ -258,7 +258,9 @@ class QuadricTensor(ProjectiveTensor, ABC):
     @property
     def dual(self) -> QuadricTensor:
         """The dual quadric."""
-        return type(self)(inv(self.array), is_dual=not self.is_dual, copy=False)
+        # subclasses with their own constructor signature (Circle, Sphere, Cone, ...) yield a general quadric
+        cls = next(c for c in type(self).__mro__ if c.__init__ is QuadricTensor.__init__)
+        return cls(inv(self.array), is_dual=not self.is_dual, copy=False)
 
 
 class Quadric(QuadricTensor, BoundTensor):
